@@ -197,13 +197,18 @@ func (c *Ctx) evalBuiltin(name string, x *ast.CallExpr, s *State) Value {
 			}
 			return c.mapNew(s, u)
 		case *types.Chan:
+			capT := "0"
 			for _, a := range x.Args[1:] {
-				c.eval(a, s)
+				capT = asInt(c.eval(a, s))
 			}
 			r := c.fresh("chan", sInt)
 			s.assume(lt("0", r))
 			c.freshRefFacts(s, r)
 			s.assume(eq(sel(c.heapGet(s, "X.closed", sA1), r), "0")) // a new channel is open
+			// its buffer size is fixed at creation (ghost chancap[ch]; contracts: ghostat("chancap", ch)). Entered as a
+			// fact about the entry-state map: the channel is new, nothing known about that map mentions it
+			c.eng.setHeapSort("X.chancap", sA1)
+			s.assume(eq(sel(c.heapGet(s, "X.chancap", sA1), r), capT))
 			return IntV{r}
 		}
 	case "new":
@@ -508,9 +513,20 @@ func (c *Ctx) evalCallWithArgs(x *ast.CallExpr, s *State, pre []Value) Value {
 				bt := c.typeOf(f.X)
 				recv, recvT = c.methodRecv(s, base, bt, sel, f)
 			case types.FieldVal:
-				// call of a func-typed field
+				// call of a func-typed field; at-clauses of the call may name its arguments (arg0, ...)
 				c.eval(f, s)
-				return c.callFuncValue(x, s, f.Sel.Name, evalArgs())
+				fargs := evalArgs()
+				if sig, ok := c.typeOf(f).Underlying().(*types.Signature); ok {
+					c.atArgs = map[string]bound{}
+					for i, a := range fargs {
+						if i < sig.Params().Len() && !(sig.Variadic() && i == sig.Params().Len()-1) {
+							c.atArgs[fmt.Sprintf("arg%d", i)] = bound{a, sig.Params().At(i).Type()}
+						}
+					}
+					c.atClauses(s, fmt.Sprintf("call %s#%d", calleeShortName(x), c.callOrd[x]), x.Pos())
+					c.atArgs = nil
+				}
+				return c.callFuncValue(x, s, f.Sel.Name, fargs)
 			}
 		} else if o, ok := c.info().Uses[f.Sel].(*types.Func); ok {
 			callee = o
@@ -953,7 +969,23 @@ func (c *Ctx) applyContract(x *ast.CallExpr, s *State, k *Contract, sig *types.S
 	}
 	env.s = s
 	for _, e := range k.Ensures {
-		s.assume(c.cevalBoolEnv(e.Expr, env))
+		if len(k.Hides) > 0 {
+			c.watchKeys = map[string]bool{}
+			for _, h := range k.Hides {
+				c.watchKeys[h] = true
+			}
+			c.watchHit = false
+		}
+		g := c.cevalBoolEnv(e.Expr, env)
+		hit := c.watchHit
+		c.watchKeys, c.watchHit = nil, false
+		if hit {
+			// the callee's effects on these keys are scoped to the callee (`hides`): in the caller's state they are
+			// unchanged, so a postcondition speaking about them says nothing here (assuming it would be contradictory)
+			c.note("a postcondition of " + key + " over ghost state it hides is checked there and not assumed by callers")
+			continue
+		}
+		s.assume(g)
 	}
 	// whatever reference a call hands back denotes an object that exists now (it may be one the callee allocated:
 	// `!was(allocated(r))` in its contract speaks about the heap before the call)
